@@ -28,14 +28,20 @@ def run_history(ops, geom):
     charge, det = make_charge(geom)
     events = []
     guard = np.full(64, 7.0)       # a canary allocated next to the container's buffers
+    pool = {}                      # arrays the caller keeps: values -> the one ndarray object that holds them
     for o in ops:
         op, arg = o["op"], o["arg"]
         ev = {"op": op, "arg": arg, "out": "ok"}
         try:
             if op == "add_array":
-                a2 = np.array(arg, dtype=float).reshape(r, c)
-                if (len(events) + int(sum(arg))) % 2:      # the same values in another memory layout (valid input)
-                    a2 = np.asfortranarray(a2)
+                # a caller that adds the same values again passes the SAME array object again (a pattern kept
+                # by a model between steps): the container must not hold on to, or write into, its argument
+                a2 = pool.get(tuple(arg))
+                if a2 is None:
+                    a2 = np.array(arg, dtype=float).reshape(r, c)
+                    if (len(events) + int(sum(arg))) % 2:      # the same values in another memory layout (valid input)
+                        a2 = np.asfortranarray(a2)
+                    pool[tuple(arg)] = a2
                 charge.add_charge_array(a2)
             elif op == "add_clusters":
                 n = len(arg)
